@@ -31,7 +31,7 @@ type lgType struct {
 	size    *ast.FuncDecl
 	writeTo *ast.FuncDecl
 	readFrom *ast.FuncDecl
-	nested bool // writeTo calls the writeTo of a (non-array) struct field: its schema is a nested struct where Kafka's is flat
+	nested []string // (non-array) struct fields written through their own writeTo: their fields are spliced into the schema (Kafka's is flat)
 	sizeWhy string // non-empty: size() could not be translated (structure and writeTo only)
 	nilFlags map[string]bool // fields compared with nil: an extra Bool field `<F>_isNil`
 }
@@ -870,6 +870,7 @@ func extractLegacy(repo, root string) error {
 	sb.WriteString("-- GENERATED by /verif/go/extract (legacy) from /repo/*.go — do not edit\n")
 	sb.WriteString("import KafkaVerif.Base.LegacyWire\nimport KafkaVerif.Base.LegacyRead\nimport KafkaVerif.Lemmas.LegacyModel\nimport KafkaVerif.Lemmas.LegacyFlat\nnamespace KV.Gen.Legacy\nopen KV KV.Legacy KV.Codec\n\n")
 	sb.WriteString("/-- proves `encode (T.ty t) (T.val t) = T.writeTo t`: unfold, split the version tests, rewrite the model encoder into the\nwriteBuffer primitives (nested `legacy_model` theorems are simp lemmas) -/\n")
+	sb.WriteString("syntax \"legacy_model_rest\" : tactic\nmacro_rules\n  | `(tactic| legacy_model_rest) => `(tactic|\n      (repeat' split\n       all_goals (first | rfl | (simp [enc_struct, encFields_cons, encFields_nil, enc_int8, enc_int16, enc_int32, enc_int64, enc_bool, enc_string, enc_bytes, enc_array, enc_array_null] <;> try (simp [writeStringArray, writeInt32Array, writeArray, writeArrayLen, writeInt32, writeString, writeInt32_fun, writeString_fun])))))\n\n")
 	sb.WriteString("syntax \"legacy_model_tac \" ident ident ident : tactic\nmacro_rules\n  | `(tactic| legacy_model_tac $a $b $w) => `(tactic|\n      (simp only [$a:ident, $b:ident, $w:ident]\n       repeat' split\n       all_goals (first | rfl | (simp [enc_struct, encFields_cons, encFields_nil, enc_int8, enc_int16, enc_int32, enc_int64, enc_bool, enc_string, enc_bytes, enc_array, enc_array_null] <;> try (simp [writeStringArray, writeInt32Array, writeArray, writeArrayLen, writeInt32, writeString, writeInt32_fun, writeString_fun])))))\n\n")
 	sb.WriteString("/-- the one tactic that proves every `legacy_size`: unfold the two methods, rewrite written lengths into announced\nsizes (nested `legacy_size` theorems are simp lemmas), close the linear arithmetic -/\n")
 	sb.WriteString("syntax \"legacy_size_tac \" ident ident : tactic\nmacro_rules\n  | `(tactic| legacy_size_tac $s $w) => `(tactic|\n      (simp only [$s:ident, $w:ident]\n       repeat' split\n       all_goals ((try simp_all [len_writeArray', len_writeEach, sizeofArray, sumInt_const,\n         sizeofInt8, sizeofInt16, sizeofInt32, sizeofInt64, sizeofBool, sizeofInt32Array, sizeofStringArray, sumInt]) <;> (try omega))))\n\n")
@@ -1113,7 +1114,7 @@ theorem legacy_frame_eq_spec (h : requestHeader) (body : Bytes)
 	})
 	var rgl, rskip []string
 	for _, e := range respEmissions {
-		if !schemaOK[e.typ] || !readerOK[e.typ] || c.types[e.typ].nested {
+		if !schemaOK[e.typ] || !readerOK[e.typ] {
 			rskip = append(rskip, fmt.Sprintf("%q", e.typ))
 			continue
 		}
@@ -1686,8 +1687,8 @@ func (e *lgEnv) schemaStmt(st ast.Stmt) tv {
 					if e.c.versioned[id.Name] {
 						bad("nested versioned type %s", id.Name)
 					}
-					e.t.nested = true
-					return one(id.Name+".tyC", "("+id.Name+".val "+e.expr(sel.X)+")")
+					e.t.nested = append(e.t.nested, id.Name)
+					return tv{id.Name + ".tyFs", "(" + id.Name + ".valFs " + e.expr(sel.X) + ")"}
 				}
 			}
 		}
@@ -1714,6 +1715,32 @@ func (e *lgEnv) schemaStmt(st ast.Stmt) tv {
 	return tv{}
 }
 
+// nestedUnfold: the definitions of the struct fields spliced into t's schema (transitively), as simp-only arguments
+func (c *lgCtx) nestedUnfold(t *lgType) string {
+	seen := map[string]bool{}
+	var out []string
+	var walk func(names []string)
+	walk = func(names []string) {
+		for _, m := range names {
+			if seen[m] {
+				continue
+			}
+			seen[m] = true
+			out = append(out, m)
+			if mt, ok := c.types[m]; ok {
+				walk(mt.nested)
+			}
+		}
+	}
+	walk(t.nested)
+	sort.Strings(out)
+	r := ""
+	for _, m := range out {
+		r += fmt.Sprintf(", %s.tyFs, %s.valFs, %s.writeTo", m, m, m)
+	}
+	return r
+}
+
 // translateSchema emits T.ty / T.val and the theorem tying writeTo to the model encoder.
 func (c *lgCtx) translateSchema(t *lgType) (out string, err error) {
 	defer func() {
@@ -1737,15 +1764,22 @@ func (c *lgCtx) translateSchema(t *lgType) (out string, err error) {
 		if regexp.MustCompile(`\bt\.`).MatchString(f.ty) {
 			bad("schema of a type without version field depends on the value: %s", f.ty)
 		}
-		fmt.Fprintf(&sb, "def %s.tyC : Ty := .struct false %s [] []\n", n, f.ty)
+		fmt.Fprintf(&sb, "def %s.tyFs : List Ty := %s\n", n, f.ty)
+		fmt.Fprintf(&sb, "def %s.valFs (t : %s) : List Val := %s\n", n, n, f.val)
+		fmt.Fprintf(&sb, "def %s.tyC : Ty := .struct false %s.tyFs [] []\n", n, n)
 		fmt.Fprintf(&sb, "@[simp] theorem %s.tyC_zeroSize : %s.tyC.zeroSize = false := rfl\n", n, n)
 		fmt.Fprintf(&sb, "def %s.ty (_ : %s) : Ty := %s.tyC\n", n, n, n)
 	}
-	fmt.Fprintf(&sb, "def %s.val (t : %s) : Val := .struct %s []\n", n, n, f.val)
 	if c.versioned[n] {
-		fmt.Fprintf(&sb, "@[simp] theorem %s.legacy_model (t : %s) : encode (%s.ty t) (%s.val t) = %s.writeTo t := by\n  legacy_model_tac %s.ty %s.val %s.writeTo\n", n, n, n, n, n, n, n, n)
+		fmt.Fprintf(&sb, "def %s.val (t : %s) : Val := .struct %s []\n", n, n, f.val)
 	} else {
-		fmt.Fprintf(&sb, "@[simp] theorem %s.legacy_modelC (t : %s) : encode %s.tyC (%s.val t) = %s.writeTo t := by\n  legacy_model_tac %s.tyC %s.val %s.writeTo\n", n, n, n, n, n, n, n, n)
+		fmt.Fprintf(&sb, "def %s.val (t : %s) : Val := .struct (%s.valFs t) []\n", n, n, n)
+	}
+	if c.versioned[n] {
+		fmt.Fprintf(&sb, "@[simp] theorem %s.legacy_model (t : %s) : encode (%s.ty t) (%s.val t) = %s.writeTo t := by\n  simp only [%s.ty, %s.val, %s.writeTo%s]\n  legacy_model_rest\n", n, n, n, n, n, n, n, n, c.nestedUnfold(t))
+	} else {
+		unfold := fmt.Sprintf("%s.tyC, %s.val, %s.writeTo, %s.tyFs, %s.valFs", n, n, n, n, n) + c.nestedUnfold(t)
+		fmt.Fprintf(&sb, "@[simp] theorem %s.legacy_modelC (t : %s) : encode %s.tyC (%s.val t) = %s.writeTo t := by\n  simp only [%s]\n  legacy_model_rest\n", n, n, n, n, n, unfold)
 		fmt.Fprintf(&sb, "theorem %s.legacy_model (t : %s) : encode (%s.ty t) (%s.val t) = %s.writeTo t := %s.legacy_modelC t\n", n, n, n, n, n, n)
 	}
 	return sb.String(), nil
